@@ -102,6 +102,8 @@ def gen_spec(rnd, o, names_after, ncomp, flags):
     if t is not None and o.get('p_multichannel', 0) and rnd.random() < o['p_multichannel']:
         sp['ch2'] = rnd.choice([c for c in ['a', 'b', '*'] if c != t] or ['a'])
     _feedback_channels(rnd, o, sp, ncomp)
+    if t is not None and o.get('p_preset', 0) and rnd.random() < o['p_preset']:
+        sp['preset'] = True
     return sp
 
 
@@ -206,6 +208,8 @@ def gen_history(rnd, o, prog):
             if t is not None and o.get('p_multichannel', 0) and rnd.random() < o['p_multichannel']:
                 sp['ch2'] = rnd.choice([x for x in ['a', 'b', '*'] if x != t] or ['a'])
             _feedback_channels(rnd, o, sp, ncomp)
+            if t is not None and o.get('p_preset', 0) and rnd.random() < o['p_preset']:
+                sp['preset'] = True
             hist.append(['fire', c, sp])
             nfired += 1
         elif op == 'flush':
